@@ -232,7 +232,7 @@ func (self *NumTypeEnclosure) ReduceFast(e2Dtype SS_DTYPE, e2int64 int64,
 	case SS_DT_SIGNED_NUM, SS_DT_UNSIGNED_NUM:
 		switch fun {
 		case Sum:
-			self.IntgrVal = self.IntgrVal + e2int64
+			self.AddToIntSum(e2int64)
 			return nil
 		case Min:
 			self.IntgrVal = min(self.IntgrVal, e2int64)
